@@ -441,7 +441,179 @@ def oracle_builder(cfg, ops, steps):
     return out
 
 
+
+# ---------------------------------------------------------------- isolation (C04)
+CTOR = {'new_list', 'new_vec', 'list_slow', 'vec_iter', 'empty', 'repeat', 'repeat_slow', 'from_elem', 'default_vec',
+        'ssz_list', 'ssz_vec', 'serde_list', 'serde_vec'}
+
+
+def targets(op):
+    """registers an operation acts through or writes (everything else is 'another handle')"""
+    p = op.split()
+    regs = [x for x in p[1:] if len(x) == 2 and x[0] == 'h' and x[1].isdigit()]
+    if p[0] in ('rebase_on',):
+        return {regs[0]} if regs else set()          # the base is 'another handle': it must be unaffected
+    if p[0] == 'rebase':
+        return {regs[0], regs[2]} if len(regs) == 3 else set(regs)
+    if p[0] == 'b_push_node':
+        return set()
+    return set(regs)
+
+
+def oracle_isolation(cfg, ops, steps):
+    """C04: an operation applied through one handle changes nothing that any OTHER handle shows: contents, length,
+    emptiness, pending state, indexed reads; and the root of a handle that no operation targeted in between."""
+    out = []
+    prev = None
+    last_root = {}
+    for st, op in zip(steps, ops):
+        p = op.split()
+        tg = targets(op)
+        if prev is not None and st.result not in ('panic',):
+            for reg, po in prev.O.items():
+                if reg in tg:
+                    continue
+                o = st.O.get(reg)
+                if o is None:
+                    out.append(Finding(st.n, '%s disappeared although `%s` does not target it' % (reg, op[:60])))
+                elif o != po:
+                    diff = [k for k in po if po.get(k) != o.get(k)]
+                    out.append(Finding(st.n, '%s changed (%s) although `%s` does not target it' % (reg, ','.join(diff), op[:60])))
+        for r in tg:
+            if p[0] != 'hash' and p[0] not in ('get', 'len', 'iter_from', 'level_iter', 'eq', 'ssz_enc', 'serde_ser', 'par_hash', 'par_mix', 'cow_read'):
+                last_root.pop(r, None)
+        if p[0] == 'hash' and st.result.startswith('ok:'):
+            r = p[1]
+            if r in last_root and last_root[r] != st.result:
+                out.append(Finding(st.n, 'root of %s changed from %s to %s although no operation targeted it in between' % (r, last_root[r][3:19], st.result[3:19])))
+            last_root[r] = st.result
+        if p[0] == 'clone' and len(p) == 3 and p[1] in last_root and st.result == 'ok':
+            last_root[p[2]] = last_root[p[1]]        # a clone shows the same root
+        prev = st
+    return out
+
+
+# ---------------------------------------------------------------- capacity (C05)
+def oracle_capacity(cfg, ops, steps):
+    """C05: a List never holds more than N elements, a Vector always exactly N"""
+    out = []
+    for st in steps:
+        for reg, o in st.O.items():
+            ln = int(o['len'])
+            if o['kind'] == 'L' and ln > cfg.n:
+                out.append(Finding(st.n, '%s: List longer than N (%d > %d)' % (reg, ln, cfg.n)))
+            if o['kind'] == 'V' and ln != cfg.n:
+                out.append(Finding(st.n, '%s: Vector length %d != N %d' % (reg, ln, cfg.n)))
+            if o.get('vals') not in ('big', None) and len(vals_of(o)) != ln and o['kind'] == 'L' and len(vals_of(o)) > cfg.n:
+                out.append(Finding(st.n, '%s: List iterates over more than N elements' % reg))
+    return out
+
+
+# ---------------------------------------------------------------- suffix operations (C11)
+def oracle_suffix(cfg, ops, steps):
+    """C11: iter_from / level_iter / pop_front agree with slicing the collection's OWN current contents (as shown by
+    the implementation one step earlier), an index beyond the length is rejected and changes nothing, and the list
+    left by pop_front equals, and hashes like, a freshly built list of the suffix (the check_fresh block that follows)."""
+    out = []
+    prev = None
+    for k, (st, op) in enumerate(zip(steps, ops)):
+        p = op.split()
+        if prev is None or p[0] not in ('iter_from', 'level_iter', 'pop_front', 'pop_front_slow') or len(p) != 3:
+            prev = st
+            continue
+        a, i = p[1], int(p[2])
+        po = prev.O.get(a)
+        if po is None or po.get('vals') in ('big', None) or st.result in ('panic', 'err:badreg'):
+            prev = st
+            continue
+        vs = [('.' if v == '' else v) for v in vals_of(po)]
+        ln = int(po['len'])
+        oob = 'err:OutOfBoundsIterFrom{index:%d,len:%d}' % (i, ln)
+        if p[0] == 'iter_from':
+            if i > ln:
+                want = oob
+            else:
+                rest = vs[i:]
+                want = 'ok:%s|%s' % (','.join(rest) if rest else '-', ','.join(str(x) for x in range(ln - i, -1, -1)))
+            if st.result != want:
+                out.append(Finding(st.n, '`%s`: expected the slice `%s`, got `%s`' % (op, want[:120], st.result[:120])))
+        elif p[0] == 'level_iter' and po['kind'] == 'L':
+            if i > ln:
+                if st.result != oob:
+                    out.append(Finding(st.n, '`%s`: expected `%s`, got `%s`' % (op, oob, st.result[:120])))
+            elif po['pend'] == '1':
+                if st.result != 'err:LevelIterPendingUpdates':
+                    out.append(Finding(st.n, '`%s` with pending writes: got `%s`' % (op, st.result[:120])))
+            elif st.result.startswith('ok:'):
+                got = []
+                body = st.result[3:]
+                if body != '-':
+                    for item in body.split('/'):
+                        xs = item.split(':', 1)[1]
+                        got += [] if xs == '-' else xs.split(',')
+                if got != vs[i:]:
+                    out.append(Finding(st.n, '`%s`: items flatten to %d elements, the slice has %d' % (op, len(got), len(vs[i:]))))
+            else:
+                out.append(Finding(st.n, '`%s`: unexpected result `%s`' % (op, st.result[:120])))
+        elif p[0] in ('pop_front', 'pop_front_slow') and po['kind'] == 'L':
+            o = st.O.get(a)
+            if o is None or o.get('vals') in ('big', None):
+                prev = st
+                continue
+            now = [('.' if v == '' else v) for v in vals_of(o)]
+            if i > ln:
+                if st.result != oob:
+                    out.append(Finding(st.n, '`%s`: expected `%s`, got `%s`' % (op, oob, st.result[:120])))
+                if now != vs:
+                    out.append(Finding(st.n, '`%s` was rejected but the contents changed' % op))
+            else:
+                if st.result != 'ok':
+                    out.append(Finding(st.n, '`%s` (len %d): got `%s`' % (op, ln, st.result[:120])))
+                elif now != vs[i:] or int(o['len']) != ln - i:
+                    out.append(Finding(st.n, '`%s`: the list left behind is not the suffix' % op))
+                else:
+                    # the check_fresh block right after: ctor h7 ; eq a h7 ; hash a ; hash h7
+                    blk = ops[k + 1:k + 5]
+                    if len(blk) == 4 and blk[1] == 'eq %s h7' % a and blk[2] == 'hash %s' % a and blk[3] == 'hash h7':
+                        r = [steps[k + 1 + j].result for j in range(4)] if k + 4 < len(steps) else None
+                        if r and r[0] == 'ok':
+                            if r[1] != 'ok:true':
+                                out.append(Finding(steps[k + 2].n, 'after `%s` the list is not equal to a freshly built list of the suffix' % op))
+                            if r[2].startswith('ok:') and r[3].startswith('ok:') and r[2] != r[3]:
+                                out.append(Finding(steps[k + 3].n, 'after `%s` the root differs from that of a freshly built list of the suffix' % op))
+        prev = st
+    return out
+
+
+# ---------------------------------------------------------------- parallel vs sequential (C16)
+def oracle_par(cfg, ops, steps):
+    """C16: parallel root computations agree with each other and with the sequential computation by the SAME
+    implementation on the same handle (the `hash` that follows); a thread that panicked or a mismatch among the
+    threads is reported by the harness as an error result."""
+    out = []
+    for k, (st, op) in enumerate(zip(steps, ops)):
+        p = op.split()
+        if p[0] not in ('par_hash', 'par_mix'):
+            continue
+        if st.result.startswith('err:') and st.result not in ('err:pending', 'err:badreg', 'err:badarg'):
+            out.append(Finding(st.n, '`%s`: %s' % (op[:60], st.result[:160])))
+            continue
+        if not st.result.startswith('ok:'):
+            continue
+        own = st.result[3:].split(',')[-1]
+        for j in range(k + 1, min(k + 4, len(ops))):
+            q = ops[j].split()
+            if q[0] == 'hash' and q[1] == p[1] and steps[j].result.startswith('ok:'):
+                if steps[j].result[3:] != own:
+                    out.append(Finding(st.n, '`%s`: the root computed in parallel differs from the sequential one that follows' % op[:60]))
+                break
+            if q[0] not in ('hash', 'eq'):
+                break
+    return out
+
+
 ORACLES = {
     'wellformed': oracle_wellformed, 'error_preserves': oracle_error_preserves, 'memo': oracle_memo,
     'canonical': oracle_canonical, 'sharing': oracle_sharing, 'cost': oracle_cost, 'builder': oracle_builder,
+    'isolation': oracle_isolation, 'capacity': oracle_capacity, 'suffix': oracle_suffix, 'par': oracle_par,
 }
